@@ -7,7 +7,11 @@ open Ndx.Heap
 def parseStep (s : String) : Option (Step Nat) :=
   match s.splitOn ":" with
   | ["d"] => some (.data 0)
+  | ["b", v] => v.toNat?.map Step.data                      -- a data-holding boolean scalar with a known value
   | ["p", n] => some (.placeholder n)
+  | ["q", n] => some (.placeholder n)                       -- a boolean scalar placeholder
+  | ["gw", args] =>                                         -- `ndx.where(c, x, y)`: both constant-condition shortcuts
+      (parseNatList args).map (fun a => Step.guarded "Where" a 0 (fun v => if v ≠ 0 then some 1 else some 2))
   | ["f", op, args] => (parseNatList args).map (Step.prim op)
   | ["c", r] => r.toNat?.map Step.copy
   | ["s", d, src] => do let d ← d.toNat?; let s ← src.toNat?; some (.set d s)
